@@ -63,7 +63,7 @@ def parse_lnet(out):
         elif w[0] == "VWV":
             d["vwv"] = fx(w[1]); d["dof"] = int(w[3]); d["m0post"] = fx(w[5])
         elif w[0] == "LINDEP":
-            d["lindep"] = [int(v) for v in w[1:]]
+            d["lindep"] = [int(v) for v in w[1:] if v in ("0", "1")]
         elif w[0] == "REMOVED":
             d["removed"] = w[1:]
     return top
